@@ -16,7 +16,7 @@ PROPS = {
                     f"<&{S_OH}<K, O, A> as std::ops::Shr<",
                     f"{S_H}::<K, O, A>::coequalize_vertices",
                     f"{FFN}::<K>::coequalizer", "finite_function::arrow::coequalizer_universal"],
-        "anchors": [f"{S_OH}::<K, O, A>::compose", f"{S_H}::<K, O, A>::coequalize_vertices",
+        "anchors": [f"<{S_OH}<K, O, A> as category::traits::Arrow>::compose", f"{S_H}::<K, O, A>::coequalize_vertices",
                     f"{FFN}::<K>::coequalizer", "finite_function::arrow::coequalizer_universal"],
         "rules": [], "level": "proof",
     },
@@ -31,7 +31,7 @@ PROPS = {
                     "lax::open_hypergraph::OpenHypergraph::<O, A>::tensor", "lax::hypergraph::Hypergraph::<O, A>::coproduct",
                     "Monoidal for lax::open_hypergraph::OpenHypergraph<O, A>>::tensor"],
         "anchors": [f"<{S_OH}<K, O, A> as category::traits::Monoidal>::tensor", f"{S_H}::<K, O, A>::coproduct",
-                    "lax::open_hypergraph::OpenHypergraph::<O, A>::tensor", "lax::hypergraph::Hypergraph::<O, A>::coproduct"],
+                    "lax::open_hypergraph::OpenHypergraph::<O, A>::tensor"],
         "rules": [], "level": "proof",
     },
     "C04": {
@@ -53,7 +53,7 @@ PROPS = {
                     f"{FFN}::<K>::new", "operations::", "strict::functor::", "lax::open_hypergraph::",
                     "lax::hypergraph::Hypergraph::<O, A>::to_hypergraph", "lax::hypergraph::Hypergraph::<O, A>::from_strict",
                     "lax::category::"],
-        "anchors": [f"{S_OH}::<K, O, A>::validate", f"{S_H}::<K, O, A>::validate", f"{ICN}::<K, F>::validate",
+        "anchors": [f"{S_OH}::<K, O, A>::validate", f"{S_H}::<K, O, A>::validate", f"{ICN}::<K, F>::new",
                     f"{FFN}::<K>::new", "operations::Operations::<K, O, A>::validate"],
         "rules": ["NONEXH"], "level": "proof",
     },
@@ -88,7 +88,7 @@ PROPS = {
                   "every operation re-establishes that invariant with the declared number of segments; iterators slice "
                   "within bounds, advance, and report the number of segments still to come",
         "entries": ["indexed_coproduct::", "operations::"],
-        "anchors": [f"{ICN}::<K, F>::validate", f"{ICN}::<K, F>::map_indexes", f"{ICN}::<K, {FFN}<K>>::flatmap",
+        "anchors": [f"{ICN}::<K, F>::new", f"{ICN}::<K, F>::map_indexes", f"{ICN}::<K, {FFN}<K>>::flatmap",
                     "IndexedCoproductFiniteFunctionIterator<K> as std::iter::Iterator>::next",
                     "IndexedCoproductSemifiniteFunctionIterator<K, T> as std::iter::Iterator>::next"],
         "rules": ["NONEXH"], "level": "proof",
